@@ -16,6 +16,8 @@ import Pywbem.Model.Observer
 import Proofs.Lemmas.ObserverOp
 import Proofs.Lemmas.Statistics
 import Proofs.Lemmas.ObserverProto
+import Proofs.Lemmas.LogConfig
+import Proofs.Lemmas.StatsRefine
 
 namespace C19
 open Pywbem.Proto Pywbem.Model.Utf8 Pywbem.Model.ToYaml Pywbem.Model.Observer
@@ -212,6 +214,33 @@ theorem C19_stats_history (b64 : Str → Str) (n : Str) : ∀ (calls : List (Cal
       simp only [hn, decide_false, Bool.false_eq_true, if_false]
       rw [h3 n hn']
 
+/-- … and the exception counter of name n grew by exactly the number of FAILED calls of that name (an operation
+    that raises is counted once as an operation and once as an exception; one that returns is not an exception) -/
+theorem C19_stats_history_exceptions (b64 : Str → Str) (n : Str) : ∀ (calls : List (Call × Core)) (c : Conn),
+    (∀ p ∈ calls, Sane p.1 p.2) → srvOk c.lastSrvTime → c.stats.enabled = true →
+    ((runOpsConn Variant.fixed c b64 calls).stats.get n).excCount =
+      (c.stats.get n).excCount +
+        (calls.filter (fun p => decide (p.1.method = n) &&
+          failedOf (coreOutcome c.info.creds b64 p.2 p.1.listener))).length
+  | [], _, _, _, _ => by simp [runOpsConn]
+  | p :: rest, c, hs, hsrv, hen => by
+    have hsp := hs p (by simp)
+    obtain ⟨hout, hsrv', hinfo, _, st, hstop, hst⟩ := runOp_spec c b64 p.1 p.2 hsp hsrv
+    have hen' : (runOp Variant.fixed c b64 p.1 p.2).conn.stats.enabled = true := by
+      rw [hst, stopTimer_enabled _ _ _ _ _ _ st hstop, startTimer_enabled, hen]
+    have ih := C19_stats_history_exceptions b64 n rest (runOp Variant.fixed c b64 p.1 p.2).conn
+      (fun q hq => hs q (by simp [hq])) hsrv' hen'
+    obtain ⟨_, h2, h3⟩ := C19_stats_once c b64 p.1 p.2 hsp hsrv hen
+    simp only [runOpsConn, List.filter_cons]
+    rw [ih, hinfo]
+    by_cases hn : p.1.method = n
+    · subst hn
+      rw [h2, hout]
+      cases hf : failedOf (coreOutcome c.info.creds b64 p.2 p.1.listener) <;> simp <;> omega
+    · have hn' : n ≠ p.1.method := fun e => hn e.symm
+      simp only [hn, decide_false, Bool.false_and, Bool.false_eq_true, if_false]
+      rw [h3 n hn']
+
 /-! ### disabled recorders -/
 
 /-- recorders that are disabled (recorder.disable(), conn.operation_recorder_enabled = False) emit no log record
@@ -283,6 +312,28 @@ example : (Pywbem.Model.Statistics.run {} [.enable, .start ['A'] 10, .start ['B'
       .reset, .stop 0 30 none none none false]).2 =
     [.unit, .handle (.named ['A'] 0), .handle (.named ['B'] 0), .resetDone false, .stopped (.dt 4), .stopped (.dt 10),
      .stopped .runtimeError, .resetDone true, .stopped .runtimeError] := by decide +kernel
+
+/-! ### the statistics of the operation model are a refinement image of the detailed model -/
+
+/-- start_timer: the coarse statistics used by `runOp` (counters only) follow the detailed model of _statistics.py
+    under the simulation relation `Rel` (same enabled flag, same names in the same order, same count / exception
+    count / length sums / server-time suspension / "timer runs") -/
+theorem C19_stats_refinement_start (s : Pywbem.Model.Statistics.Stats) (cs : Stats) (n : Str) (now : Int)
+    (h : Proofs.Lemmas.StatsRefine.Rel s cs) :
+    Proofs.Lemmas.StatsRefine.Rel (s.startTimer n now).1 (cs.startTimer n) :=
+  Proofs.Lemmas.StatsRefine.start_sim s cs n now h
+
+/-- stop_timer: the coarse model raises RuntimeError exactly when the detailed one does (nothing changes then),
+    otherwise the relation is kept — so `C19_stats_once` / `C19_stats_history` speak about the real counters -/
+theorem C19_stats_refinement_stop (s : Pywbem.Model.Statistics.Stats) (cs : Stats) (n : Str) (now : Int) (a b : Nat)
+    (srv : Option Int) (f : Bool) (h : Proofs.Lemmas.StatsRefine.Rel s cs) :
+    match cs.stopTimer n a b (Proofs.Lemmas.StatsRefine.srvOf srv) f with
+    | .ok cs' => Proofs.Lemmas.StatsRefine.Rel
+        (s.stopTimer (.named n s.gen) now (some (a : Int)) (some (b : Int)) srv f).1 cs'
+    | .error _ =>
+      (s.stopTimer (.named n s.gen) now (some (a : Int)) (some (b : Int)) srv f).2 = .runtimeError ∧
+      (s.stopTimer (.named n s.gen) now (some (a : Int)) (some (b : Int)) srv f).1 = s :=
+  Proofs.Lemmas.StatsRefine.stop_sim s cs n now a b srv f h
 
 /-! ### last_raw_reply / last_raw_request -/
 
@@ -405,6 +456,59 @@ theorem C19_recorders_disabled_by_setter (v : Variant) (c : Conn) (b64 : Str →
   obtain ⟨r0, _, rfl⟩ := hr
   cases r0 <;> simp [disabledRec]
 
+/-- (partial: open finding C19-KF7) last_request_len is the number of CHARACTERS of the request text; full statement
+    `last_request_len = number of bytes sent` is false: `C19_last_request_len_fails_at` -/
+theorem C19_last_request_len_partial (c : Conn) (b64 : Str → Str) (call : Call) (core : Core)
+    (hs : Sane call core) (req : Req) (hp : core.prep = .ok req) :
+    (runOp Variant.fixed c b64 call core).conn.lastRequestLen = req.data.length := by
+  have hpk := prologue_ok c call hs.noKw hs.argsOk
+  rcases hpro : prologue c call with ⟨recs1, ev1, e1⟩
+  rw [hpro] at hpk
+  simp only at hpk
+  obtain ⟨he1, _, _⟩ := hpk
+  subst he1
+  rw [runOp_unfold_ok Variant.fixed c b64 call core recs1 ev1 hpro, (finallyPart_keeps _ _ _ _).1]
+  exact ((tryBody_debug Variant.fixed _ b64 core call.listener).2.2 req hp).1
+
+/-- the bytes sent are always at least 40 more than last_request_len says -/
+theorem C19_last_request_len_fails_at (data : List Char) : (xmlDecl ++ encode data).length ≥ data.length + 40 := by
+  have h := encode_length_ge data
+  have hx : xmlDecl.length = 40 := by decide
+  simp only [List.length_append]
+  omega
+
+/-- debug off: an operation leaves the debug items (last_request / last_reply sources) exactly as they were —
+    any variant, any recorders, any outcome -/
+theorem C19_debug_off_keeps_items (v : Variant) (c : Conn) (b64 : Str → Str) (call : Call) (core : Core)
+    (hd : c.debug = false) :
+    (runOp v c b64 call core).conn.lastRequestXmlSet = c.lastRequestXmlSet ∧
+    (runOp v c b64 call core).conn.lastReplyXmlSet = c.lastReplyXmlSet := by
+  rcases hpro : prologue c call with ⟨recs1, ev1, e1⟩
+  cases e1 with
+  | some e => rw [runOp_unfold_err v c b64 call core recs1 ev1 e hpro]; exact ⟨rfl, rfl⟩
+  | none =>
+    rw [runOp_unfold_ok v c b64 call core recs1 ev1 hpro]
+    obtain ⟨_, k2, k3, _⟩ := finallyPart_keeps v call ev1
+      (tryBody v { c with recorders := recs1, stats := c.stats.startTimer call.method } b64 core call.listener)
+    rw [k2, k3]
+    obtain ⟨_, t2, t3⟩ := tryBody_debug v { c with recorders := recs1, stats := c.stats.startTimer call.method } b64
+      core call.listener
+    cases hp : core.prep with
+    | error e => obtain ⟨_, a, b⟩ := t2 e hp; exact ⟨a, b⟩
+    | ok req => exact (t3 req hp).2.1 hd
+
+/-- debug on: once the request was built the request item is set (last_request becomes available) -/
+theorem C19_debug_on_sets_request_item (v : Variant) (c : Conn) (b64 : Str → Str) (call : Call) (core : Core)
+    (hd : c.debug = true) (req : Req) (hp : core.prep = .ok req) (hk : (prologue c call).2.2 = none) :
+    (runOp v c b64 call core).conn.lastRequestXmlSet = true := by
+  rcases hpro : prologue c call with ⟨recs1, ev1, e1⟩
+  rw [hpro] at hk
+  simp only at hk
+  subst hk
+  rw [runOp_unfold_ok v c b64 call core recs1 ev1 hpro, (finallyPart_keeps _ _ _ _).2.1]
+  exact ((tryBody_debug v { c with recorders := recs1, stats := c.stats.startTimer call.method } b64 core
+    call.listener).2.2 req hp).2.2 hd
+
 /-! ### the recorder protocol -/
 
 /-- every finished operation (returned or raised) makes each enabled TestClientRecorder of the connection write
@@ -437,6 +541,72 @@ example : Proofs.Lemmas.ObserverProto.tcCount (runOp Variant.fixed
     { okCore .none with send := (fun _ _ => .raised ⟨.named "ConnectionError", []⟩) }).events.length = 4 := by
   decide +kernel
 
+/-! ### configure_logger (Model/LogConfig.lean) -/
+
+/-- configure_logger raises (ValueError) only before it changed anything — loggers, class-level activation and
+    detail levels, the connection and its recorders are as before, no record was logged; also for 'all' (the 'http'
+    half validates the same arguments the 'api' half accepted) -/
+theorem C19_configure_error_changes_nothing (g : Pywbem.Model.LogConfig.Global) (c : Conn)
+    (name : Pywbem.Model.LogConfig.NameArg) (dest : Pywbem.Model.LogConfig.DestArg)
+    (detail : Pywbem.Model.LogConfig.DetailArg) (fn : Bool) (cn : Pywbem.Model.LogConfig.ConnArg) (p : Bool) (e : Exc)
+    (h : (Pywbem.Model.LogConfig.configure g c name dest detail fn cn p).exc = some e) :
+    (Pywbem.Model.LogConfig.configure g c name dest detail fn cn p).g = g ∧
+    (Pywbem.Model.LogConfig.configure g c name dest detail fn cn p).c = c ∧
+    (Pywbem.Model.LogConfig.configure g c name dest detail fn cn p).events = [] :=
+  Proofs.Lemmas.LogConfig.configure_error_unchanged g c name dest detail fn cn p e h
+
+/-- the detail levels configure_logger accepts: None, 'all', 'paths', 'summary', an integer ≥ 0 — nothing else -/
+theorem C19_configure_detail_levels_accepted (d : Pywbem.Model.LogConfig.DetailArg) :
+    (∃ x, Pywbem.Model.LogConfig.configureDetail d = .ok x) ↔
+    (d = .none ∨ d = .str Pywbem.Model.LogConfig.sAll ∨ d = .str Pywbem.Model.LogConfig.sPaths ∨
+     d = .str Pywbem.Model.LogConfig.sSummary ∨ ∃ i, d = .int i ∧ 0 ≤ i) :=
+  Proofs.Lemmas.LogConfig.configureDetail_ok_iff d
+
+/-- the accepted strings are the LOG_DETAIL_LEVELS of pywbem/_logging.py (regenerated from the source) -/
+theorem C19_configure_detail_levels_pinned :
+    logDetailLevels.map String.toList =
+      [Pywbem.Model.LogConfig.sAll, Pywbem.Model.LogConfig.sPaths, Pywbem.Model.LogConfig.sSummary] := by decide
+
+/-- whatever configure_logger is called with, and however often: of a connection it touches the recorders only, so
+    every history of operations has the same outcomes before and after -/
+theorem C19_configure_never_changes_outcomes (g : Pywbem.Model.LogConfig.Global) (c : Conn)
+    (name : Pywbem.Model.LogConfig.NameArg) (dest : Pywbem.Model.LogConfig.DestArg)
+    (detail : Pywbem.Model.LogConfig.DetailArg) (fn : Bool) (cn : Pywbem.Model.LogConfig.ConnArg) (p : Bool)
+    (b64 : Str → Str) (calls : List (Call × Core)) (hs : ∀ q ∈ calls, Sane q.1 q.2) (hsrv : srvOk c.lastSrvTime) :
+    runOps Variant.fixed (Pywbem.Model.LogConfig.configure g c name dest detail fn cn p).c b64 calls =
+    runOps Variant.fixed c b64 calls := by
+  obtain ⟨hi, hl, _, _, _⟩ := Proofs.Lemmas.LogConfig.sbr_configure g c name dest detail fn cn p
+  rw [C19_history_outcomes_are_core_outcomes b64 calls _ hs (by rw [hl]; exact hsrv),
+    C19_history_outcomes_are_core_outcomes b64 calls c hs hsrv, hi]
+
+/-- log_dest='off': that logger is no longer enabled for DEBUG, future connections are not activated, no error —
+    whatever the other arguments are (they are not even validated) -/
+theorem C19_configure_off (g : Pywbem.Model.LogConfig.Global) (c : Conn) (a : Bool)
+    (detail : Pywbem.Model.LogConfig.DetailArg) (fn : Bool) (cn : Pywbem.Model.LogConfig.ConnArg) (p : Bool) :
+    Pywbem.Model.LogConfig.loggerOn (Pywbem.Model.LogConfig.configureOne g c a .off detail fn cn p).g a = false ∧
+    (Pywbem.Model.LogConfig.configureOne g c a .off detail fn cn p).g.activate = false ∧
+    (Pywbem.Model.LogConfig.configureOne g c a .off detail fn cn p).exc = none :=
+  Proofs.Lemmas.LogConfig.off_postcondition g c a detail fn cn p
+
+/-- WBEMConnection.__init__ after configure_logger(..., connection=True|False): no recorder unless activated;
+    if activated exactly one log recorder carrying the class-level detail levels -/
+theorem C19_new_connection_recorders (g : Pywbem.Model.LogConfig.Global) (info : ConnInfo) (st : Bool) :
+    (g.activate = false → (Pywbem.Model.LogConfig.newConn g info st).1.recorders = []) ∧
+    (g.activate = true → ∃ l, (Pywbem.Model.LogConfig.newConn g info st).1.recorders = [.log l] ∧
+      (∀ d, g.apiDetail = some d → l.apiLevel = some d) ∧ (∀ d, g.httpDetail = some d → l.httpLevel = some d) ∧
+      (g.apiDetail = none → l.apiLevel = none) ∧ (g.httpDetail = none → l.httpLevel = none)) :=
+  Proofs.Lemmas.LogConfig.newConn_recorders g info st
+
+/-- non-vacuity: 'all' with a negative detail level fails and changes nothing; with 'paths' on a connection it
+    creates one log recorder and logs the connection once -/
+example :
+    (Pywbem.Model.LogConfig.configure {} (connWith [] false) .all .stderr (.int (-1)) true .conn false).exc =
+      some (.py .valueError) ∧
+    ((Pywbem.Model.LogConfig.configure {} (connWith [] false) .all .stderr (.str Pywbem.Model.LogConfig.sPaths) true
+        .conn false).c.recorders.length = 1 ∧
+     (Pywbem.Model.LogConfig.configure {} (connWith [] false) .all .stderr (.str Pywbem.Model.LogConfig.sPaths) true
+        .conn false).events.length = 1) := by decide +kernel
+
 /-! ### the password -/
 
 /-- str()/repr() of the connection and the 'Connection:' log record do not depend on the password when the
@@ -446,6 +616,21 @@ theorem C19_password_not_in_connection_text (u p p' : Str) (a b x y : Str) (r : 
     connRepr ⟨.tuple u p, a, b, x, y⟩ = connRepr ⟨.tuple u p', a, b, x, y⟩ ∧
     r.stageConn ⟨.tuple u p, a, b, x, y⟩ = r.stageConn ⟨.tuple u p', a, b, x, y⟩ := by
   refine ⟨rfl, rfl, ?_⟩
+  simp [LogRec.stageConn, connStr, connRepr, credsRepr]
+
+/-- every credential form that IS a tuple — the documented plain tuple, a namedtuple, any other tuple subclass — is
+    elided the same way; what str()/repr() show is built from the user id and the surrounding attribute texts only:
+    the password is not an input of the text -/
+theorem C19_password_elided_for_every_tuple_form (u p : Str) (a b x y : Str) :
+    connStr ⟨.tupleSub u p, a, b, x, y⟩ = a ++ ("(".toList ++ u ++ ", ...)".toList) ++ b ∧
+    connRepr ⟨.tupleSub u p, a, b, x, y⟩ = x ++ ("(".toList ++ u ++ ", ...)".toList) ++ y ∧
+    connStr ⟨.tuple u p, a, b, x, y⟩ = a ++ ("(".toList ++ u ++ ", ...)".toList) ++ b ∧
+    connRepr ⟨.tuple u p, a, b, x, y⟩ = x ++ ("(".toList ++ u ++ ", ...)".toList) ++ y :=
+  ⟨rfl, rfl, rfl, rfl⟩
+
+/-- … and neither of the 'Connection:' log record, for every detail level and maximum length -/
+theorem C19_connection_record_independent_of_password (u p p' : Str) (a b x y : Str) (r : LogRec) :
+    r.stageConn ⟨.tupleSub u p, a, b, x, y⟩ = r.stageConn ⟨.tupleSub u p', a, b, x, y⟩ := by
   simp [LogRec.stageConn, connStr, connRepr, credsRepr]
 
 /-- password noninterference for an operation: two connections that differ only in the credentials emit the same
